@@ -37,7 +37,7 @@ def x_obligations(tier):
 
 
 def z_obligations(tier):
-    return [dict(name=f"C06-roots[shipped,loaded-first={first}]", module="tplz3.c05z", func="roots", args={"conf": "shipped", "first": first}, timeout=300, family="C06-root") for first in ("local", "server")]
+    return [dict(name="C06-mapping[shipped]", module="tplz3.c05z", func="mapping", args={"conf": "shipped"}, timeout=600, family="C06-mapping")] + [dict(name=f"C06-roots[shipped,loaded-first={first}]", module="tplz3.c05z", func="roots", args={"conf": "shipped", "first": first}, timeout=300, family="C06-root") for first in ("local", "server")]
 
 
 META = {
